@@ -149,7 +149,7 @@ def parse_tlc(out, r):
             r.error = (m.group(1) if m else "unknown TLC error")[:300]
     if r.violation:
         i = out.find("Error:")
-        r.cex = out[i:i + 200000] if i >= 0 else None
+        r.cex = out[i:] if i >= 0 else None
     return r
 
 
